@@ -567,6 +567,17 @@ def run(ck):
                     leaves = any(x.get('k') == 'Ret' for x in walk(a['body'])) and not list(H.value_exprs(a['body']))
                     if not (pushes or sets_default or leaves):
                         others.append(pp(a['pat'], maxlen=30))
+                # .. and nothing is dropped after the numbering: enumerate() is the last adaptor of the iterator
+                it = H.strip_refs(lp['iter'])
+                while it.get('k') == 'Call' and it.get('args'):      # IntoIterator::into_iter(..) of the desugared for
+                    it = H.strip_refs(it['args'][0])
+                after = []
+                while it.get('k') == 'MCall' and it.get('m') != 'enumerate':
+                    after.append(it['m'])
+                    it = H.strip_refs(it['recv'])
+                dropped = [m_ for m_ in after if m_ in ('filter', 'filter_map', 'skip', 'skip_while', 'step_by', 'take_while', 'flat_map')]
+                if dropped:
+                    others.append('(dropped by .%s() after enumerate())' % dropped[0])
                 ok = not others
                 why = ('position = enumerate() index; every child is a case, the default, or an error, so the index counts clauses' if ok else
                        'position = raw child index, but children matching %s are skipped without being clauses: each of them before `default:` shifts the default body one place down the fall-through chain' % others)
